@@ -54,7 +54,8 @@ def main() -> int:
                 sigs = re.findall(r"^VIOLATION property=\S+ replay=\S+ signature=(\S+)", chk.stdout, flags=re.M)
                 res["check_rc"] = chk.returncode
                 res["signatures"] = sigs[:12]
-                res["matching_listed"] = [s for s in sigs if any(fnmatch.fnmatchcase(s, p) for p in e["signatures"])][:6]
+                pats = [p.replace("[", "[[]") for p in e["signatures"]]  # brackets are literal in signatures
+                res["matching_listed"] = [s for s in sigs if any(fnmatch.fnmatchcase(s, p) for p in pats)][:6]
                 res["caught"] = chk.returncode == 1 and bool(sigs)
                 res["summary"] = chk.stdout.strip().splitlines()[-1][:200] if chk.stdout.strip() else chk.stderr[-200:]
         finally:
